@@ -326,6 +326,21 @@ pub fn gen_c06(args: &Args) {
         }
         w.emit(ev("c06", &site, date, &p, &o));
     }
+    // pole stratum: the last half degree of the property's domain, every second day of a year
+    {
+        let y = r.range(1600, 2399) as i32;
+        let lon = r.range(-1_800_000, 1_800_000);
+        for lat in [890_000i64, 893_000, 894_500, 895_000, -894_500, -895_000, 894_000, -893_500] {
+            let p = angle_params(&mut r);
+            let site = Site { dlat: 0, lat, lon, el: 0, gmt: natural_gmt(lon) };
+            let mut d = ymd(y, 1, 1) + chrono::Duration::days(r.range(0, 1));
+            while d.year() == y {
+                let o = call(&site, d, &p);
+                w.emit(ev("c06", &site, d, &p, &o));
+                d = d + chrono::Duration::days(2);
+            }
+        }
+    }
     // boundary probes: 0.02 degree steps to +-0.6 degree around the latitude where the library's validity flips,
     // for Fajr, Isha, Shurooq; dates incl. January / February of the non-leap century years
     let mut probes = 0;
@@ -465,6 +480,57 @@ pub fn gen_c20(args: &Args) {
                 w.emit(json!({"ev": "c20", "kind": "lon", "d": sign * 3600, "site": site_json(&site), "siteb": site_json(&sb),
                     "date": date_json(date), "p": p.json(), "a": res_json(&a), "b": res_json(&b)}));
             }
+        }
+    }
+    // fine zone scan: the zone offset swept in 1-second steps over +-2.5 h around the natural zone on dates where the
+    // astronomy has structure (equinoxes, solstices, the RA-wrap days, year ends) and a few random ones. Every
+    // consecutive pair is a "gmt + 1 s" experiment; only the pairs that deviate most are recorded (a search
+    // heuristic - TLC judges the recorded pairs like any other)
+    for i in 0..args.num("scans", 14) {
+        let y = r.range(1600, 2399) as i32;
+        let date = match i % 7 {
+            0 => ymd(y, 3, r.range(19, 22) as u32),
+            1 => ymd(y, 9, r.range(21, 24) as u32),
+            2 => ymd(y, 6, 21),
+            3 => ymd(y, 12, 21),
+            4 => ymd(y, 12, 31),
+            _ => rand_date(&mut r),
+        };
+        let lon = r.range(-1_400_000, 1_400_000);
+        let base = Site { dlat: 0, lat: r.range(-450_000, 450_000), lon, el: 0, gmt: natural_gmt(lon) };
+        let p = plain(r.range(1, 6) as usize);
+        let (g0, g1) = ((base.gmt - 9000).max(-43200), (base.gmt + 9000).min(43200));
+        let mut prev: Option<(i64, Out)> = None;
+        let mut worst: Vec<(i64, i64, Out, Out)> = Vec::new(); // (deviation, gmt of a, a, b)
+        let mut g = g0;
+        while g <= g1 {
+            let s = Site { gmt: g, ..base };
+            let o = raw_call(&s, date, &p);
+            if let Some((pg, po)) = &prev {
+                if po.ok() && o.ok() {
+                    let mut dev = 0i64;
+                    for k in 0..7 {
+                        if (po.t[k] >= 0) != (o.t[k] >= 0) {
+                            dev = dev.max(100_000);
+                        } else if po.t[k] >= 600 && po.t[k] <= 85_000 && o.t[k] >= 600 && o.t[k] <= 85_000 {
+                            dev = dev.max((o.t[k] - (po.t[k] + (g - pg))).abs());
+                        }
+                    }
+                    if worst.len() < 3 || dev > worst.last().unwrap().0 {
+                        worst.push((dev, *pg, po.clone(), o.clone()));
+                        worst.sort_by(|a, b| b.0.cmp(&a.0));
+                        worst.truncate(3);
+                    }
+                }
+            }
+            prev = Some((g, o));
+            g += 1;
+        }
+        for (_, pg, a, b) in worst {
+            let sa = Site { gmt: pg, ..base };
+            let sb = Site { gmt: pg + 1, ..base };
+            w.emit(json!({"ev": "c20", "kind": "gmt", "d": 1, "site": site_json(&sa), "siteb": site_json(&sb),
+                "date": date_json(date), "p": p.json(), "a": res_json(&a), "b": res_json(&b), "scan": true}));
         }
     }
     // zone offsets on either side of 0 (sites near Greenwich) on the dates where the calendar formula has structure
